@@ -36,6 +36,8 @@ def parseTok (s : Script) (w : String) : Option Script :=
   | ["L", "ex"] => some { s with lists := s.lists ++ [.expired] }
   | ["L", "ot0"] => some { s with lists := s.lists ++ [.other false] }
   | ["L", "ot1"] => some { s with lists := s.lists ++ [.other true] }
+  | ["L", "poll"] => some { s with lists := s.lists ++ [.pollStop] }
+  | ["L", "pollE"] => some { s with lists := s.lists ++ [.pollStop] }
   | ["L", "ok", r, kvs] => match r.toNat?, parseKVs kvs with
     | some r, some kvs => if r = 0 && !kvs.isEmpty then none else some { s with lists := s.lists ++ [.ok kvs r] }
     | _, _ => none
@@ -108,7 +110,9 @@ def step (d : DState) (line : String) : DState × String :=
     | _, _, _ => (d, "bad-op")
   | "call" :: i :: toks => match i.toNat?, parseScript toks with
     | some i, some sc => match d.caches[i]?, sc.fin with
-      | some wc, some fin => finish d i (runCall wc sc.lists sc.watches fin sc.evs)
+      | some wc, some fin =>
+        if sc.lists.any ListOut.isPollStop && !sc.evs.isEmpty then (d, "bad-op")
+        else finish d i (runCall wc sc.lists sc.watches fin sc.evs)
       | _, _ => (d, "bad-op")
     | _, _ => (d, "bad-op")
   | ["stop", i] => match i.toNat? with
